@@ -77,13 +77,48 @@ enum Framing
   NotModified304
 };
 
+// Connection header forms of a scripted response: up to two field lines
+struct ConnForm
+{
+  const char *l1, *l2;
+};
+constexpr int kConnForms = 14;
+inline const ConnForm &connForm(int k)
+{
+  static const ConnForm f[kConnForms] = {{"", ""}, {"keep-alive", ""}, {"close", ""}, {"Close", ""}, {"foo, close", ""},
+                                         {"x-close-hint", ""}, {"CLOSE , te", ""}, {"keep-alive, close", ""}, {"Keep-Alive", ""},
+                                         {"X-Trace", ""}, {"TE, x-trace", ""}, {"x-trace", "close"}, {"close", "x-trace"},
+                                         {"keep-alive", "x-trace"}};
+  return f[k];
+}
+inline bool fieldHasToken(const char *v, const char *tok) { return listHasToken(v, tok); }
+/// close signal by RFC 9112 9.3/9.6 (all field lines combined; HTTP/1.0 without keep-alive is not persistent)
+inline bool rfcCloseSignal(int k, int version)
+{
+  const ConnForm &f = connForm(k);
+  bool close = fieldHasToken(f.l1, "close") || fieldHasToken(f.l2, "close");
+  bool keep = fieldHasToken(f.l1, "keep-alive") || fieldHasToken(f.l2, "keep-alive");
+  return close || (version == 10 && !keep);
+}
+/// what the unchanged HttpClient makes of it (checked on /repo: its header map keeps the LAST field line only)
+inline bool clientCloseSignal(int k, int version)
+{
+  const ConnForm &f = connForm(k);
+  const char *last = f.l2[0] ? f.l2 : f.l1;
+  return fieldHasToken(last, "close") || (version == 10 && !fieldHasToken(last, "keep-alive"));
+}
+/// the oracle demands "next request on a new connection" only where both agree on a close signal;
+/// where they disagree the outcome is recorded (label), no verdict
+inline bool demandedCloseSignal(int k, int version) { return rfcCloseSignal(k, version) && clientCloseSignal(k, version); }
+inline bool disputedCloseSignal(int k, int version) { return rfcCloseSignal(k, version) != clientCloseSignal(k, version); }
+
 struct RespSpec
 {
   int status = 200;
   int framing = ByLength;
   std::size_t bodySize = 2;
   int version = 11;      // 11 or 10
-  int connHeader = 0;    // 0 none, 1 keep-alive, 2 close, 3 Close, 4 "foo, close", 5 "x-close-hint", 6 "CLOSE , te"
+  int connHeader = 0;    // index into connForm()
   std::size_t surplus = 0;
   bool interim100 = false;
   int malformed = 0;     // 0 = well-formed; else a deterministic framing violation
@@ -201,8 +236,12 @@ Rendered render(const RespSpec &s, const std::string &method, const std::string 
   out += "X-Token: " + tok + "\r\n";
   if (s.malformed == 4) out += "this line has no colon\r\n";
   if (s.malformed == 5) out += "X-Folded: a\r\n  continued\r\n";
-  static const char *conn[] = {"", "keep-alive", "close", "Close", "foo, close", "x-close-hint", "CLOSE , te"};
-  if (s.connHeader) out += std::string(s.connHeader % 2 ? "Connection: " : "connection: ") + conn[s.connHeader] + "\r\n";
+  if (s.connHeader)
+  {
+    const ConnForm &cf = connForm(s.connHeader);
+    out += std::string(s.connHeader % 2 ? "Connection: " : "connection: ") + cf.l1 + "\r\n";
+    if (cf.l2[0]) out += std::string(s.connHeader % 2 ? "CONNECTION: " : "Connection: ") + cf.l2 + "\r\n";
+  }
   std::string body = bodyFor(tok, s.bodySize);
   bool bodyless = head || framing == NoContent204 || framing == NotModified304;
   std::string payload;
@@ -279,9 +318,7 @@ Rendered render(const RespSpec &s, const std::string &method, const std::string 
   r.bytes = std::move(out);
   r.framingError = malformedApplies(s.malformed, method, s);
   r.closeDelimited = !bodyless && framing == CloseDelimited && !r.framingError;
-  bool closeTok = s.connHeader == 2 || s.connHeader == 3 || s.connHeader == 4 || s.connHeader == 6;
-  bool keepTok = s.connHeader == 1;
-  r.closeSignal = closeTok || (s.version == 10 && !keepTok) || r.closeDelimited || s.surplus > 0 || r.framingError;
+  r.closeSignal = demandedCloseSignal(s.connHeader, s.version) || r.closeDelimited || s.surplus > 0 || r.framingError;
   return r;
 }
 
@@ -294,6 +331,7 @@ struct Logical
   int refuseMs = 0; // the port refuses connections for this long after the call starts
   std::string token;
   int caller = 0;
+  int entry = 0; // POST only: 0 post(), 1 postJson(), 2 postStream(), 3 postJsonAsync() - the body then travels as a JSON string
 };
 
 struct CallOutcome
@@ -378,6 +416,7 @@ public:
   int acceptRsts = 0;
   int accepted = 0;
   std::string problem; // harness-level trouble (not a verdict)
+  std::vector<std::string> notes; // observations without verdict (labels)
 
 private:
   enum class St
@@ -402,6 +441,7 @@ private:
     double respondAt = 0;
     std::size_t extraAfter = 0; // octets beyond the current request seen while poisoned / before the response
     bool reuseReported = false;
+    std::string disputedForm; // last answer carried a Connection form on which RFC and client disagree
   };
 
   const Plan &plan;
@@ -507,6 +547,11 @@ private:
       violate("C17/reuse-after-" + c.poisonWhy,
               pbt::Fmt() << "request " << ex.method << " " << ex.token << " starts on connection #" << c.idx
                          << ", which must not be reused (" << c.poisonWhy << ")");
+    }
+    if (!c.disputedForm.empty())
+    {
+      notes.push_back("no verdict: " + c.disputedForm + " -> connection reused");
+      c.disputedForm.clear();
     }
     int ai = -1;
     c.act = takeAction(ai);
@@ -624,8 +669,7 @@ private:
     ex.faultDesc = fd;
 
     bool surplusSent = a.respond && wrote && a.resp.surplus > 0 && j > r.surplusFrom;
-    bool closeTok = a.resp.connHeader == 2 || a.resp.connHeader == 3 || a.resp.connHeader == 4 || a.resp.connHeader == 6;
-    bool closeSignal = closeTok || (a.resp.version == 10 && a.resp.connHeader != 1) || r.closeDelimited || r.framingError;
+    bool closeSignal = demandedCloseSignal(a.resp.connHeader, a.resp.version) || r.closeDelimited || r.framingError;
     // the exchange ended, as far as the peer can tell, with a complete reusable answer
     bool cleanAnswer = wholeRequest && complete && !closeSignal && !surplusSent;
     bool earlyCleanAnswer = !wholeRequest && complete && !closeSignal && !surplusSent;
@@ -642,6 +686,15 @@ private:
                                              : "close-signal";
       poison(c, why);
     }
+    if (complete && !r.framingError && disputedCloseSignal(a.resp.connHeader, a.resp.version))
+    {
+      c.disputedForm = pbt::Fmt() << "HTTP/" << (a.resp.version == 10 ? "1.0" : "1.1") << " Connection:'" << connForm(a.resp.connHeader).l1 << "'+'"
+                                  << connForm(a.resp.connHeader).l2 << "' (RFC: " << (rfcCloseSignal(a.resp.connHeader, a.resp.version) ? "close" : "persistent")
+                                  << ", client: " << (clientCloseSignal(a.resp.connHeader, a.resp.version) ? "close" : "persistent") << ")";
+      notes.push_back("no verdict: " + c.disputedForm + " delivered");
+    }
+    else
+      c.disputedForm.clear();
     switch (then)
     {
     case Then::Keep:
@@ -821,6 +874,7 @@ std::string describe(const Plan &p)
   for (auto &l : p.reqs)
   {
     f << " [" << l.token << " " << l.method << " budget=" << l.budget;
+    if (l.entry) f << (l.entry == 1 ? " via postJson" : l.entry == 2 ? " via postStream" : " via postJsonAsync");
     if (l.bodySize) f << " body=" << l.bodySize;
     if (l.refuseMs) f << " refuse=" << l.refuseMs << "ms";
     if (p.callers > 1) f << " @" << l.caller;
@@ -840,8 +894,11 @@ std::string describe(const Plan &p)
         f << a.resp.status << (a.resp.version == 10 ? " HTTP/1.0" : "");
         static const char *fr[] = {"CL", "chunked", "close-delimited", "204", "304"};
         f << " " << fr[a.resp.framing] << " " << a.resp.bodySize << "B";
-        static const char *conn[] = {"", " keep-alive", " close", " Close", " 'foo, close'", " x-close-hint", " 'CLOSE , te'"};
-        f << conn[a.resp.connHeader];
+        if (a.resp.connHeader)
+        {
+          f << " Connection:'" << connForm(a.resp.connHeader).l1 << "'";
+          if (connForm(a.resp.connHeader).l2[0]) f << "+'" << connForm(a.resp.connHeader).l2 << "'";
+        }
         if (a.resp.interim100) f << " +100";
         if (a.resp.surplus) f << " surplus=" << a.resp.surplus;
         if (a.resp.malformed) f << " MALFORMED(" << malformedName(a.resp.malformed) << ")";
@@ -861,8 +918,31 @@ HttpClient::Response doCall(HttpClient &cl, const Logical &l, const std::string 
   if (l.method == "GET") return cl.get(url, hdr, l.budget);
   if (l.method == "HEAD") return cl.head(url, hdr, l.budget);
   if (l.method == "DELETE") return cl.deleteRequest(url, hdr, l.budget);
-  if (l.method == "POST") return cl.post(url, body, hdr, l.budget);
+  if (l.method == "POST")
+  {
+    switch (l.entry)
+    {
+    case 1: return cl.postJson(url, iora::parsers::Json(body), hdr, l.budget);
+    case 2:
+    {
+      // postStream returns nothing: report "some 2xx" (status -1 = unknown to the oracle)
+      cl.postStream(url, iora::parsers::Json(body), hdr, [](const std::string &) {}, l.budget);
+      HttpClient::Response r;
+      r.statusCode = -1;
+      return r;
+    }
+    case 3: return cl.postJsonAsync(url, iora::parsers::Json(body), hdr, l.budget).get();
+    default: return cl.post(url, body, hdr, l.budget);
+    }
+  }
   return (cl.*stolenPerform())(l.method, url, body, hdr, l.budget);
+}
+// the request body as it must appear on the wire (the JSON entry points send the body as a JSON string;
+// bodyFor() produces only characters that need no escaping)
+std::string wireBody(const Logical &l)
+{
+  std::string b = bodyFor("q" + l.token, l.bodySize);
+  return (l.method == "POST" && l.entry != 0) ? "\"" + b + "\"" : b;
 }
 
 void execute(const Plan &plan, pbt::Case &c)
@@ -967,6 +1047,7 @@ void execute(const Plan &plan, pbt::Case &c)
   }
   if (srv.acceptRsts) c.label("fault: accept-then-RST");
   if (unattributed) c.label("exchange without readable token");
+  for (auto &n : srv.notes) c.label(n);
   for (auto &v : srv.violations)
   {
     c.fail(v.sig, v.what);
@@ -1022,7 +1103,7 @@ void execute(const Plan &plan, pbt::Case &c)
           RawRequest rq;
           std::string err;
           frameRequest(ex->raw, rq, err);
-          std::string wantBody = bodyFor("q" + l.token, l.bodySize);
+          std::string wantBody = wireBody(l);
           const std::string *xt = rq.header("X-Token");
           if (rq.method != l.method || rq.target != "/t/" + l.token || rq.body != wantBody || !xt || *xt != l.token)
             c.fail("C17/garbled-request", pbt::Fmt() << l.method << " " << l.token << ": request on connection #" << ex->conn
@@ -1031,7 +1112,7 @@ void execute(const Plan &plan, pbt::Case &c)
         }
       }
     }
-    if (o.returned)
+    if (o.returned && o.status >= 0)
     {
       bool found = false;
       if (it != byTok.end())
@@ -1066,8 +1147,8 @@ Action genAction(pbt::Src &src, const pbt::Row &r)
     return a;
   }
   RespSpec &s = a.resp;
-  static const int statuses[] = {200, 200, 201, 202, 203, 400, 404, 500, 503};
-  s.status = statuses[r[5] % 9];
+  static const int statuses[] = {200, 200, 201, 202, 203, 400, 404, 500, 503, 502, 504, 503};
+  s.status = statuses[r[5] % 12];
   s.framing = static_cast<int>((r[2] / 7) % 5);
   if ((r[2] / 7) % 11 >= 5) s.framing = ByLength;
   switch (r[6] % 6)
@@ -1077,7 +1158,7 @@ Action genAction(pbt::Src &src, const pbt::Row &r)
   case 4: s.bodySize = 200 + static_cast<std::size_t>(r[6] / 6) % 3000; break;
   default: s.bodySize = 9000 + static_cast<std::size_t>(r[6] / 6) % 30000; break;
   }
-  s.interim100 = (r[5] / 9) % 10 == 0;
+  s.interim100 = (r[5] / 12) % 10 == 0;
   a.delayMs = (r[7] % 4 == 0) ? static_cast<int>(r[7] / 4) % 40 : 0;
   if (kind < 31)
   {
@@ -1113,18 +1194,23 @@ Action genAction(pbt::Src &src, const pbt::Row &r)
   // complete answers
   if (kind < 72)
   {
-    static const int closeForms[] = {2, 3, 4, 6};
-    s.connHeader = closeForms[r[2] % 4];
+    static const int closeForms[] = {2, 3, 4, 6, 7, 11};
+    s.connHeader = closeForms[r[2] % 6];
   }
   else if (kind < 77)
     s.surplus = 1 + static_cast<std::size_t>(r[2] % 60);
-  else if (kind < 81)
-  {
-    s.version = 10;
-    s.connHeader = (r[2] % 2) ? 1 : 0;
-  }
   else if (kind < 85)
-    s.connHeader = (r[2] % 2) ? 1 : 5;
+  {
+    // HTTP/1.0 x every Connection form (absent, keep-alive, close, lists, option-only tokens, two field lines)
+    s.version = 10;
+    s.connHeader = static_cast<int>(r[2] % kConnForms);
+    if (s.framing == Chunked) s.framing = ByLength;
+  }
+  else if (kind < 89)
+  {
+    static const int keepForms[] = {1, 5, 9, 10, 8, 12, 13};
+    s.connHeader = keepForms[r[2] % 7];
+  }
   if (s.surplus && s.bodySize > 2000) s.bodySize %= 2000; // response + surplus stay within one segment / one read
   static const Then tc[] = {Then::Keep, Then::Keep, Then::Keep, Then::Keep, Then::Fin, Then::Rst};
   a.then = tc[r[4] % 6];
@@ -1152,6 +1238,8 @@ PBT_PROPERTY(exchange)
     if (l.method != "GET" && l.method != "HEAD" && l.method != "DELETE" && l.method != "OPTIONS")
       l.bodySize = (r[2] % 3 == 0) ? 0 : (r[2] % 3 == 1 ? 1 + static_cast<std::size_t>(r[2] / 3) % 400 : 20000 + static_cast<std::size_t>(r[2] / 3) % 300000);
     if (plan.callers == 1 && r[3] % 6 == 0) l.refuseMs = static_cast<int>(50 + (r[3] / 6) % 300);
+    if (l.method == "POST") l.entry = static_cast<int>((r[4] % 8 < 5) ? 0 : r[4] % 8 - 4); // 3/8 of the POSTs use postJson / postStream / postJsonAsync
+    if (l.entry) c.label(l.entry == 1 ? "entry point: postJson" : l.entry == 2 ? "entry point: postStream" : "entry point: postJsonAsync");
     l.token = pbt::Fmt() << "r" << seq;
     l.caller = seq % plan.callers;
     ++seq;
@@ -1308,6 +1396,69 @@ PBT_REGRESSION(oversized_chunk_small_cap_not_retried)
   Plan p;
   oversizedChunkPlan(p);
   p.capBytes = 4096;
+  execute(p, c);
+}
+
+// HTTP/1.0 without keep-alive is not persistent, whatever other Connection options it carries; a close
+// token counts in a list and in the last of two field lines (seeded change C17-I)
+PBT_REGRESSION(no_reuse_after_http10_and_listed_close)
+{
+  Plan p;
+  p.requestTimeoutMs = 2500;
+  struct F { int version, form; };
+  static const F forms[] = {{10, 9}, {10, 10}, {10, 5}, {10, 0}, {10, 12}, {10, 7}, {10, 2}, {11, 7}, {11, 11}, {11, 4}, {11, 6}};
+  int i = 0;
+  for (auto &f : forms)
+  {
+    p.reqs.push_back(L(i % 3 == 2 ? "POST" : "GET", 0, "", i % 3 == 2 ? 5 : 0));
+    p.reqs.back().token = "h" + std::to_string(i++);
+    Action a;
+    a.resp.version = f.version;
+    a.resp.connHeader = f.form;
+    a.resp.bodySize = 10;
+    p.script.push_back(a);
+  }
+  p.reqs.push_back(L("GET", 0, "last"));
+  execute(p, c);
+}
+// ... and the forms that keep a connection persistent do not make the client fail
+PBT_REGRESSION(persistent_forms_answered)
+{
+  Plan p;
+  p.requestTimeoutMs = 2500;
+  struct F { int version, form; };
+  static const F forms[] = {{10, 1}, {10, 8}, {11, 9}, {11, 10}, {11, 5}, {11, 8}, {10, 13}, {11, 12}, {11, 13}};
+  int i = 0;
+  for (auto &f : forms)
+  {
+    p.reqs.push_back(L("GET", 0, ""));
+    p.reqs.back().token = "k" + std::to_string(i++);
+    Action a;
+    a.resp.version = f.version;
+    a.resp.connHeader = f.form;
+    a.resp.bodySize = 10;
+    p.script.push_back(a);
+  }
+  execute(p, c);
+}
+
+// a POST that was sent completely and answered by a complete 5xx is not sent again, through any of
+// the public POST entry points (seeded change C17-J: postStream)
+PBT_REGRESSION(post_entry_points_not_resent_after_5xx)
+{
+  Plan p;
+  p.requestTimeoutMs = 2500;
+  static const int st[] = {503, 502, 504, 500};
+  for (int e = 0; e < 4; ++e)
+  {
+    p.reqs.push_back(L("POST", 2, "", 6));
+    p.reqs.back().token = "e" + std::to_string(e);
+    p.reqs.back().entry = e;
+    Action a;
+    a.resp.status = st[e];
+    a.resp.bodySize = 5;
+    p.script.push_back(a);
+  }
   execute(p, c);
 }
 
